@@ -183,7 +183,7 @@ class Gen:
             a = self.pick(lambda v, e: v.ndim >= 1)
             if a is None: return
             v = self.pool[a][0]
-            op = self.choice(['transpose', 'T', 'swapaxes', 'reshape', 'ravel', 'repeat', 'broadcast_to', 'diagonal', 'trace'])
+            op = self.choice(['transpose', 'T', 'swapaxes', 'reshape', 'ravel', 'repeat', 'broadcast_to', 'diagonal', 'trace', 'diagonal'])
             if op == 'transpose':
                 p = dict(axes=list(self.draw(st.permutations(list(range(v.ndim))))))
                 if self.integer(0, 1):      # NumPy counts negative axes from the end
@@ -203,7 +203,8 @@ class Gen:
                 a1, a2 = self.draw(st.permutations(list(range(v.ndim))))[:2]
                 if self.integer(0, 2) == 0: a1 -= v.ndim
                 if self.integer(0, 2) == 0: a2 -= v.ndim
-                p = dict(offset=self.choice([0, 0, 1, -1]), a1=a1, a2=a2)
+                p = dict(offset=self.choice([0, 1, -1, 1, -1]), a1=a1, a2=a2)
+                if p['offset'] and a1 % v.ndim > a2 % v.ndim: self.features.add('offdiagonal-reversed-axes')
             else:
                 p = {}
             if self.try_add(op, [a], p): self.features.add('shape-op')
